@@ -1090,6 +1090,11 @@ W23 = [dict(_world("W23-graphqlschema-under-graphql-dir", _W11_SDL, "", {"target
        dict(_world("W23c-client-under-pydantic-dir", _W22_SDL, "query Items($first: Int, $filter: ItemFilter) {\n  items(first: $first, filter: $filter) {\n    id\n    name\n  }\n}"),
             target_dir="pydantic")]
 
+# the sources written as shell patterns (not a documented form of schema_path / queries_path): rejected or expanded, the outcome must
+# not depend on the order in which the file system lists the matches
+W24 = [dict(copy.deepcopy(W8s), id="W24-sources-as-patterns", schema_path_pattern="schema_dir/*", queries_path_pattern="queries_dir/*"),
+       dict(copy.deepcopy(W8s), id="W24b-sources-as-recursive-patterns", schema_path_pattern="schema_dir/**/*.graphql*", queries_path_pattern="queries_dir/**/*")]
+
 # projects that exercise process-level machinery (plugins, configured scalars, custom operations, the other strategy): used as the
 # "earlier generation in the same interpreter" of other projects
 STATEFUL_NEIGHBOURS = ["W19-builtin-scalar-names-configured", "W5-upload-scalars-mixin", "W10-plugins-5", "W9-custom-operations",
@@ -1097,7 +1102,7 @@ STATEFUL_NEIGHBOURS = ["W19-builtin-scalar-names-configured", "W5-upload-scalars
 
 
 def all_worlds() -> List[dict]:
-    return [W1, W2, W2b, W3, W4, W5, W7, W8, W8s, W8t, W9, W9k, W15] + W10 + W11 + W12 + W13 + W14 + W16 + W17 + [W18, W19, W21] + W22 + W23
+    return [W1, W2, W2b, W3, W4, W5, W7, W8, W8s, W8t, W9, W9k, W15] + W10 + W11 + W12 + W13 + W14 + W16 + W17 + [W18, W19, W21] + W22 + W23 + W24
 
 
 def by_id(wid: str) -> dict:
